@@ -490,6 +490,11 @@ def run(ctx):
     from .C08 import check_col
     ctx.rule("C01-DESIGN", "trend / offset design matrix and offset-prior order (shared implementation with C08-COL).")
     check_col(_Relabel(ctx, {"C08-COL": "C01-DESIGN"}))
+    from .C04 import check_tref as c04_tref
+    from .C15 import check_tref as c15_tref
+    ctx.rule("C01-EPOCH", "the Kepler column and the trend powers are taken about data._t_ref_bmjd, the TCB MJD of the data's reference epoch (shared with C04-TREF / C15-TREF).")
+    c04_tref(_Relabel(ctx, {"C04-TREF": "C01-EPOCH"}), K)
+    c15_tref(_Relabel(ctx, {"C15-TREF": "C01-EPOCH"}))
     # samples reach the kernel packed as (P, e, omega, M0, s) in internal units (shared with C05-FEED / C12-COL)
     from .C05 import check_feed
     from .C12 import _reader_checks
